@@ -1,6 +1,7 @@
 import SpecKitV.Lemmas.Starts
 import SpecKitV.Lemmas.SchedLtf
 import SpecKitV.Lemmas.SchedNewVec
+import SpecKitV.Props.C02
 
 #print axioms roundHalfUp_eq
 #print axioms capK_le
@@ -24,3 +25,9 @@ import SpecKitV.Lemmas.SchedNewVec
 #print axioms SchedNV.vecGridPoint_props
 #print axioms SchedNV.vecWalk_entry_from_map
 #print axioms SchedNV.searchLeft_le
+#print axioms ltfPlan_safe
+#print axioms lpsdPlan_safe
+#print axioms newPlan_safe
+#print axioms vecPlan_safe
+#print axioms planValidate_ok
+#print axioms planValidate_ok_lpsd
